@@ -154,12 +154,14 @@ def execGreedy (g : G) : M G := do
     | none => 0
   pure (g.elist.foldl (fun g e => if arc (g.edge e).src > arc (g.edge e).dst then g.reverse e else g) g)
 
+def breakCycles (alg : Nat) (g : G) : M G := if alg == 0 then execGreedy g else execDepthFirst g
+
 /-- `phase1.Alg.Process` (alg 0 = Greedy, 1 = DepthFirst) -/
 def phase1 (alg : Nat) (g : G) : M G := do
   if g.nodes.size == 1 then return g
   let g := removeTwoNodeCycles g
   if !(← hasCycles g) then return g
-  let g ← if alg == 0 then execGreedy g else execDepthFirst g
+  let g ← breakCycles alg g
   if ← hasCycles g then throw "panic:cyclebreaking: graph is still cyclic"
   pure g
 
